@@ -8,8 +8,9 @@ values and how the evaluator combines them (validated against the real interpret
 correspondence run).  `compat v k`: a value of run-time kind `v` is of declared kind `k`
 (int ⊑ real ⊑ complex, scalars may initialise array / user-type variables, never complex where
 real is claimed).
-Hypothesis `good`: every sub-expression is inferable, nothing raises at run time, constants are
-numbers, and a quotient is not of Integer kind.  The last two exclusions are real gaps of the
+Hypothesis `good`: nothing raises at run time, constants are numbers, a quotient is not of
+Integer kind, and - only outside check mode - every term of a sum is inferable (in check mode,
+which the final consistency pass uses since the `fix:` commit, an uninferable term is an error).  The last two exclusions are real gaps of the
 code (known findings): `True`/`None` constants get the kind Scalar(real); `i / j` of two loop
 counters is declared Integer but Python's true division yields a float.  Powers are treated
 like products (no negative base with fractional exponent, no negative integer exponent).
@@ -20,23 +21,23 @@ open Dagrt Dagrt.Kinds
 /-- **Per-operator soundness.** If the table describes the current values and the registry's
     declared result kinds describe what the functions return, then the kind inferred for an
     expression describes the value it evaluates to — for every expression, table and valuation. -/
-theorem infer_sound (reg : Registry) (t : Table) (ph : Name) (F : RtFuns) (ρ : Name → Rt)
+theorem infer_sound (chk : Bool) (reg : Registry) (t : Table) (ph : Name) (F : RtFuns) (ρ : Name → Rt)
     (hT : TableCompat t ph ρ) (hR : RegSound reg F) (e : Expr) (k : Kind)
-    (hg : good reg t ph F ρ e = true) (h : infer reg t ph e = .ok k) :
+    (hg : good chk reg t ph F ρ e = true) (h : infer chk reg t ph e = .ok k) :
     compat (rtEval F ρ e) k = true :=
-  Dagrt.Kinds.infer_sound reg t ph F ρ hT hR e k hg h
+  Dagrt.Kinds.infer_sound chk reg t ph F ρ hT hR e k hg h
 
 /-- in particular a value is never complex where the inferred kind claims real -/
-theorem never_complex_where_real (reg : Registry) (t : Table) (ph : Name) (F : RtFuns) (ρ : Name → Rt)
+theorem never_complex_where_real (chk : Bool) (reg : Registry) (t : Table) (ph : Name) (F : RtFuns) (ρ : Name → Rt)
     (hT : TableCompat t ph ρ) (hR : RegSound reg F) (e : Expr) (r : Bool)
-    (hg : good reg t ph F ρ e = true)
-    (h : infer reg t ph e = .ok (.scalar r) ∨ infer reg t ph e = .ok (.array r)) (hr : r = true) :
+    (hg : good chk reg t ph F ρ e = true)
+    (h : infer chk reg t ph e = .ok (.scalar r) ∨ infer chk reg t ph e = .ok (.array r)) (hr : r = true) :
     rtEval F ρ e ≠ .cplx ∧ rtEval F ρ e ≠ .arr true := by
   subst hr
   rcases h with h | h
-  · have := infer_sound reg t ph F ρ hT hR e _ hg h
+  · have := infer_sound chk reg t ph F ρ hT hR e _ hg h
     constructor <;> intro he <;> rw [he] at this <;> simp [compat] at this
-  · have := infer_sound reg t ph F ρ hT hR e _ hg h
+  · have := infer_sound chk reg t ph F ρ hT hR e _ hg h
     constructor <;> intro he <;> rw [he] at this <;> simp [compat] at this
 
 /-- a kind above the inferred one (what the table holds after unification with other
@@ -50,16 +51,16 @@ theorem table_kind_accepts (v : Rt) (k k' : Kind) (hc : compat v k = true)
 /-- **Invariant under assignment.** If the table is a post-fix-point for the statement
     `lhs <- e` (the inferred kind of `e` is below the table's kind of `lhs`), executing it keeps
     the table a description of the store. -/
-theorem assign_preserves (reg : Registry) (t : Table) (ph : Name) (F : RtFuns) (ρ : Name → Rt)
+theorem assign_preserves (chk : Bool) (reg : Registry) (t : Table) (ph : Name) (F : RtFuns) (ρ : Name → Rt)
     (hT : TableCompat t ph ρ) (hR : RegSound reg F) (lhs : Name) (e : Expr) (k : Kind)
-    (hg : good reg t ph F ρ e = true) (h : infer reg t ph e = .ok k)
+    (hg : good chk reg t ph F ρ e = true) (h : infer chk reg t ph e = .ok k)
     (hpost : ∀ k', lookupVar t ph lhs = some k' → k = k' ∨ unifyK k k' = .ok k') :
     TableCompat t ph (fun x => if x = lhs then rtEval F ρ e else ρ x) := by
   intro x kx hx
   by_cases hxl : x = lhs
   · subst hxl
     simp only [if_true]
-    exact table_kind_accepts _ k kx (infer_sound reg t ph F ρ hT hR e k hg h) (hpost kx hx)
+    exact table_kind_accepts _ k kx (infer_sound chk reg t ph F ρ hT hR e k hg h) (hpost kx hx)
   · simp only [hxl, if_false]; exact hT x kx hx
 
 /-- **Built-ins.** Declared result kinds vs. what the Python implementations return, for every
@@ -77,20 +78,21 @@ def outOk : List Rt → List Kind → Bool
   | _, _ => false
 
 theorem builtin_kinds_sound :
-    builtins1.all (fun f => rtUniverse.all fun r => kindUniverse.all fun k =>
-      (match k with | none => true | some k' => compat r k') →
-      match builtin f, rtBuiltin f [r] [] with
-      | some fn, some rts => (match fn [k] [] with | .ok out => outOk rts out | .error _ => true)
-      | _, _ => false) = true := by decide
+    [true, false].all (fun chk => builtins1.all fun f => rtUniverse.all fun r => kindUniverse.all fun k =>
+      !(match k with | none => true | some k' => compat r k') ||
+      (match builtin f, rtBuiltin f [r] [] with
+      | some fn, some rts => (match fn chk [k] [] with | .ok out => outOk rts out | .error _ => true)
+      | _, _ => false)) = true := by decide
 
 theorem dot_product_sound :
-    rtUniverse.all (fun r1 => rtUniverse.all fun r2 => kindUniverse.all fun k1 => kindUniverse.all fun k2 =>
+    [true, false].all (fun chk => rtUniverse.all fun r1 => rtUniverse.all fun r2 => kindUniverse.all fun k1 => kindUniverse.all fun k2 =>
+      !((match k1 with | none => true | some k' => compat r1 k') && (match k2 with | none => true | some k' => compat r2 k')) ||
       match builtin "<builtin>dot_product", rtBuiltin "<builtin>dot_product" [r1, r2] [] with
-      | some fn, some rts => (match fn [k1, k2] [] with | .ok out => outOk rts out | .error _ => true)
+      | some fn, some rts => (match fn chk [k1, k2] [] with | .ok out => outOk rts out | .error _ => true)
       | _, _ => false) = true := by decide
 
 /-! non-vacuity -/
-example : infer (mkRegistry []) Table.init "p" (.prod [.var "<t>", .const (.cplx "1j")]) = .ok (.scalar false) := by decide
+example : infer true (mkRegistry []) Table.init "p" (.prod [.var "<t>", .const (.cplx "1j")]) = .ok (.scalar false) := by decide
 example : rtEval (fun _ _ _ => []) (fun _ => .real) (.prod [.var "<t>", .const (.cplx "1j")]) = .cplx := by decide
 
 end Dagrt.C09
